@@ -136,13 +136,15 @@ end
 
 /-- `without_unit_arguments` (type_system.py:48-49 default; Arrow 428-435).  Note the second
     branch: an argument that is itself a function *returning* unit is replaced by that
-    function's argument type (finding C14-F4). -/
-def withoutUnit : Ty → Ty
+    function's argument type (finding C14-F4).  `fx = true`: the code with the repair proposed
+    in fixes_proposed/C14-F4.diff (that `elif` branch removed); the harness probes the
+    implementation and asks the driver for the same variant. -/
+def withoutUnit (fx : Bool) : Ty → Ty
   | .node .arrow [a, b] =>
-    let out := withoutUnit b
+    let out := withoutUnit fx b
     if a = Ty.unit then out
     else match a with
-      | .node .arrow [x, y] => if y = Ty.unit then Ty.arrow x out else Ty.arrow a out
+      | .node .arrow [x, y] => if y = Ty.unit && !fx then Ty.arrow x out else Ty.arrow a out
       | _ => Ty.arrow a out
   | t => t
 
@@ -185,13 +187,13 @@ def sumPass (L : List Prim) : List Prim :=
 
 def hasUnitArg (t : Ty) : Bool := (arguments t).any (fun a => a == Ty.unit)
 
-def unitStep (p : Prim) : Prim := if hasUnitArg p.2 then (p.1, withoutUnit p.2) else p
+def unitStep (fx : Bool) (p : Prim) : Prim := if hasUnitArg p.2 then (p.1, withoutUnit fx p.2) else p
 
 /-- dsl.py:107-116 -/
-def unitPass (L : List Prim) : List Prim := dedup (L.map unitStep)
+def unitPass (fx : Bool) (L : List Prim) : List Prim := dedup (L.map (unitStep fx))
 
 /-- `dsl.instantiate_polymorphic_types(bound)`: the new `dsl.list_primitives` -/
-def instantiate (P : List Prim) (bound : Nat) : List Prim :=
-  unitPass (sumPass (varPass (typeUniverse (basicTypes P)) bound P))
+def instantiate (fx : Bool) (P : List Prim) (bound : Nat) : List Prim :=
+  unitPass fx (sumPass (varPass (typeUniverse (basicTypes P)) bound P))
 
 end PS.Dsl
